@@ -3,6 +3,7 @@ from vlib import orch, harness
 from checks import c07_accounting as c07
 
 ID = 'C09'
+CONTRACTS = True     # icontract recording contracts ride along (vlib/contracts.py)
 LEVEL = 'fault_enumeration'
 RULE = ('every placement of one failure of each kind the property lists (missing source, reader '
         'error, parse error, semantic error, code-generation error) on every module of 9 canonical '
@@ -14,7 +15,8 @@ ASSUMPTIONS = c07.ASSUMPTIONS
 
 FAULTS = [('source', 'absent'), ('source_error', 'reader'), ('source_error', 'generic'),
           ('source', 'truncated'), ('source', 'lexerr'), ('source', 'synerr'), ('source', 'unresolved'),
-          ('source', 'dupsym'), ('source', 'ghost'), ('source', 'empty'), ('parser', 'parser'),
+          ('source', 'dupsym'), ('source', 'ghost'), ('source', 'ghostdefval'), ('source', 'empty'),
+          ('parser', 'parser'),
           ('codegen', 'codegen'), ('codegen', 'semantic')]
 OPTS = [{}, {'ignoreErrors': True}, {'noDeps': True}, {'noDeps': True, 'ignoreErrors': True},
         {'dryRun': True}, {'writeMibs': False}, {'writeMibs': False, 'ignoreErrors': True},
